@@ -5,6 +5,7 @@
 -/
 import MinkModel.Pipeline
 import MinkModel.Literal
+import MinkModel.Output
 namespace Mink
 
 structure PState where
@@ -254,12 +255,39 @@ def storeFacts (names : Array String) (st : Store) : List String :=
     st.symbols.consts.map (fun (c, f) => s!"sym const {nm names c} {nm names f}"))
   [loaded, topo] ++ edges ++ syms
 
+def internPure (names : Array String) (w : String) : Array String × Nat :=
+  match names.toList.idxOf? w with
+  | some i => (names, i)
+  | none => (names.push w, names.size)
+
+def basename (s : String) : String := ((s.splitOn "/").getLast?).getD s
+
+def stemOf (s : String) : String :=
+  let b := basename s
+  if b.endsWith ".idl" then (b.dropEnd 4).toString else b
+
+/-- file names written by the multi-file backends, through `Output.writtenFiles` with the
+    key functions of the generators (`to_lowercase()` + `.rs`; name + `.java`) -/
+def outputFacts (c : Case) (mir : List MNode) : List String :=
+  let mainPath := nm c.names c.main
+  let ifs := mir.filterMap fun | .iface (l :: _) => some l.name | _ => none
+  let go (ext : String) (fold : String → String) (b : Backend) : String :=
+    let (names1, baseId) := internPure c.names (fold (stemOf mainPath) ++ ext)
+    let (names2, keys) := ifs.foldl (fun (acc : Array String × List (Nat × Nat)) i =>
+      let (n', k) := internPure acc.1 (fold (nm c.names i) ++ ext)
+      (n', acc.2 ++ [(i, k)])) (names1, [])
+    let key := fun i => ((keys.find? (fun e => e.1 == i)).map (·.2)).getD i
+    let files := writtenFiles b key baseId 0 mir
+    " ".intercalate (sortStrings (files.map (nm names2)))
+  [s!"files rust {go ".rs" String.toLower .rust}",
+   if javaSupported mir then s!"files java {go ".java" id .java}" else "files java !panic"]
+
 def facts (entry : Entry) (c : Case) (ub : Bool := false) : List String :=
   match compile entry c.fs c.incdirs c.main ub with
   | .error e => [s!"verdict reject {e.toString}"]
   | .ok r =>
     ["verdict accept"] ++ storeFacts c.names r.store ++
       sortStrings (r.sizes.map fun (n, sz, al) => s!"#layout {nm c.names n} {sz} {al}") ++
-      sortStrings (dedup (mirFacts c.names r.mir))
+      sortStrings (dedup (mirFacts c.names r.mir)) ++ outputFacts c r.mir
 
 end Mink
